@@ -52,6 +52,7 @@ type Case struct {
 	TopAsc     bool   `json:"top_asc,omitempty"`
 	Limit      uint32 `json:"limit,omitempty"`  // plan level: request limit (0 = default 100)
 	Offset     uint32 `json:"offset,omitempty"` // plan level: request offset
+	Batch      int    `json:"batch_size,omitempty"` // vplan level: VectorizedConfig.BatchSize on the liaison and on every node
 	// Groups: group tag values, indexed by Row.G (default {"a","b"}).
 	Groups []string `json:"groups,omitempty"`
 	// Shape: generator of Rows/Assign/Groups for the shape families (shape.go); expanded before the case runs.
@@ -230,6 +231,8 @@ func runK[N aggregation.Number](k *kind[N], c *Case, st *stats) (out []viol) {
 		return runVec(k, c, st)
 	case "vectop":
 		return runVecTop(k, c, st)
+	case "vplan":
+		return runVPlan(k, c, st)
 	}
 	return []viol{{"harness/unknown-level", c.Level}}
 }
@@ -619,6 +622,8 @@ func main() {
 	jobs := append(jobsFor(intKind, b), jobsFor(floatKind, b)...)
 	jobs = append(jobs, shapeJobs(intKind)...)
 	jobs = append(jobs, shapeJobs(floatKind)...)
+	jobs = append(jobs, vplanJobs(intKind)...)
+	jobs = append(jobs, vplanJobs(floatKind)...)
 	total := newStats()
 	var mu sync.Mutex
 	report := func(c *Case, vs []viol) {
@@ -671,6 +676,7 @@ func main() {
 			"plan_grouped": b.planGroup, "plan_grouped_small_alphabet": b.planGroupSmall, "plan_raw_top": b.planRawTop, "topq_sequences": b.topq,
 			"vec_scalar": b.vecScalar, "vec_grouped": b.vecGroup, "vec_grouped_small_alphabet": b.vecGroupSmall},
 		"shape_families": shapeBounds(),
+		"vplan_grid":     vplanBounds(),
 		"shards":         nShards, "replicas_per_shard": "1|2", "groups": 2, "top_n": "1..3 top and bottom",
 		"int_alphabet": strs(intKind, intKind.alphabet), "float_alphabet": strs(floatKind, floatKind.alphabet),
 		"int_plan_alphabet": strs(intKind, intKind.planAlphabet), "float_plan_alphabet": strs(floatKind, floatKind.planAlphabet),
@@ -704,6 +710,7 @@ func sampleCases() []*Case {
 		{Level: "plan", Typ: "float", Rows: []Row{{"1.5", 0}, {"1.5", 0}, {"-1.5", 0}}, Assign: []int{0, 1, 1}, Replicas: []int{1, 2, 1}, Interleave: true, TopN: 2, TopAsc: true},
 		{Level: "topq", Typ: "int", Rows: []Row{{"2", 0}, {"-1", 0}, {"2", 0}, {"0", 0}}, TopN: 2},
 		{Level: "vec", Typ: "float", Fn: "MIN", Rows: []Row{{"0", 0}, {"5e-324", 1}, {"-1.5", 1}}, Assign: []int{0, 1, 2}, Replicas: []int{1, 2, 1}, Interleave: true, GroupBy: true},
+		{Level: "vplan", Typ: "int", Fn: "SUM", GroupBy: true, Replicas: []int{1, 1, 1}, Interleave: true, TopN: 2, Batch: 2, Shape: &Shape{Kind: "groups", GroupsPerNode: 5, Nodes: 2}},
 		{Level: "vectop", Typ: "float", Rows: []Row{{"1.5", 0}, {"1.5", 0}, {"1e+308", 0}}, TopN: 1, TopAsc: true},
 	}
 }
